@@ -34,6 +34,7 @@ type Action struct {
 	SrcInfo   *SourceInfo       `json:"-"`           // C01: facts of the source file this history was translated from
 	SrcName   string            `json:"-"`
 	Light     bool              `json:"-"` // do not write trees / raw bytes to the trace (no model comparison)
+	Variant   *VariantInfo      `json:"-"` // program-level variant (C13 C14 C15): compared with the unchanged execution
 }
 
 var probeCache = map[string]string{}
@@ -231,6 +232,25 @@ func ReplayHistory(tw *TraceWriter, id int, h []Action) {
 	syms := map[string]string{}
 	nrefs := 0
 	bA, bB := NewBuilder(), NewBuilder()
+	cbBuild, cbRender, nforms, ncb, rendering := 0, 0, 0, 0, false
+	if vi := h[0].Variant; vi != nil && vi.Prop == "C14" {
+		// a random form at every node; the two Files get different choices; callbacks are counted per phase
+		dummyF, dummyC := 0, 0
+		bA.Form = randomForms(vi.Seed, &nforms, &ncb)
+		bB.Form = randomForms(vi.Seed+7, &dummyF, &dummyC)
+		bA.Callback = func(string) {
+			if rendering {
+				cbRender++
+			} else {
+				cbBuild++
+			}
+		}
+		bB.Callback = func(string) {
+			if rendering {
+				cbRender++
+			}
+		}
+	}
 	body := []*Node{}
 	for _, a := range h[1:] {
 		switch a.A {
@@ -271,10 +291,12 @@ func ReplayHistory(tw *TraceWriter, id int, h []Action) {
 			}
 			nrefs++
 		case "Render":
+			rendering = true
 			rA := renderFile(fA)
 			stop := watchDicts()
 			rB := renderFile(fB)
 			fixupDicts(bB, stop()) // the body as the NoFormat twin's render visited it (Dict first-pass orders)
+			rendering = false
 			src := rA.out
 			if rA.status != "nil" {
 				src = rB.out
@@ -295,6 +317,17 @@ func ReplayHistory(tw *TraceWriter, id int, h []Action) {
 			if h[0].SrcInfo != nil {
 				c01 = CompareOutput(rA.out, h[0].SrcInfo)
 				c01["on"], c01["file"], c01["known"] = true, h[0].SrcName, h[0].SrcInfo.Known
+			}
+			c01["msg"] = ""
+			if rA.status != "nil" && len(rA.msg) > 0 {
+				c01["msg"] = rA.msg[:min(len(rA.msg), 400)]
+			}
+			c01["var"] = Rec{"prop": "", "n": 0, "sameraw": true, "sameout": true, "sametoks": true, "cmtok": true, "cbok": true, "basestatus": ""}
+			if vi := h[0].Variant; vi != nil {
+				if vi.Prop == "C14" {
+					vi.N = nforms
+				}
+				c01["var"] = variantFacts(vi, rA.status, rA.out, rB.out, cbBuild, cbRender, ncb)
 			}
 			rawstatus, rawtext, obsBody := rB.status, string(rB.out), append([]*Node{}, body...)
 			if h[0].Light {
